@@ -161,7 +161,10 @@ class BWorld:
             "copy.deepcopy": lambda x: x.copy() if hasattr(x, "copy") else x,
         }
         getters = {"num_state": lambda m: self.nS, "num_param": lambda m: self.nP, "num_events": lambda m: self.nE}
+        lam = SymArr((self.nS, self.nE), [(i + j) % 2 for i in range(self.nS) for j in range(self.nE)])
+        summ["Model.get_ReactantMatrix"] = setter("_lambdaMat", lam)
         ab = Abs({}, {}, summ, me, getters)
+        ab.class_methods = set(self.repo.all_methods(self.cls)) | {g for c in self.repo.mro(self.cls) for g in c.getters}
         kind, out = ab.run_function(fn.node, {})
         return fn, kind, out, me
 
